@@ -30,6 +30,7 @@ type result struct {
 	Token        string `json:"token,omitempty"`
 	Desig        bool   `json:"designated,omitempty"`
 	Holder       bool   `json:"holder,omitempty"`
+	Paired       bool   `json:"paired,omitempty"` // sent while another request was outstanding on the same (multiplexed) connection
 	KeepAlive    bool   `json:"keepalive"`
 	NewConn      bool   `json:"new_conn"`       // first request on its connection
 	ConnAfterSig bool   `json:"conn_after_sig"` // its connection was opened after the signal was sent
@@ -283,15 +284,28 @@ func (x *bconn) do(p *plan, h *hooks, res *result) {
 			return
 		}
 	}
+	x.await(map[uint32]*pend{id: {p, res}})
+}
+
+type pend struct {
+	p   *plan
+	res *result
+}
+
+// await collects response frames until every pending request got its answer (matched by request id; the
+// connection is multiplexed), the connection ended or the deadline passed.
+func (x *bconn) await(pending map[uint32]*pend) {
 	end := time.Now().Add(reqTimeout)
-	for {
+	for len(pending) > 0 {
 		fs, closed := x.c.WaitN(x.got+1, time.Until(end))
 		if len(fs) <= x.got {
 			x.noReuse = true
-			if closed {
-				res.Kind, res.Detail = "closed", "connection ended before the response"
-			} else {
-				res.Kind, res.Detail = "timeout", "no response frame"
+			for _, q := range pending {
+				if closed {
+					q.res.Kind, q.res.Detail = "closed", "connection ended before the response"
+				} else {
+					q.res.Kind, q.res.Detail = "timeout", "no response frame"
+				}
 			}
 			return
 		}
@@ -300,27 +314,82 @@ func (x *bconn) do(p *plan, h *hooks, res *result) {
 		xi, perr := mesh.ParseX(f)
 		if perr != nil {
 			x.noReuse = true
-			res.Kind, res.Detail = "wrong-frame", fmt.Sprintf("unparsable frame from MOSN: %v (% x)", perr, head(f, 32))
+			for _, q := range pending {
+				q.res.Kind, q.res.Detail = "wrong-frame", fmt.Sprintf("unparsable frame from MOSN: %v (% x)", perr, head(f, 32))
+			}
 			return
 		}
 		if !xi.Response {
 			continue // a request-type frame from MOSN (heartbeat / go-away): not an answer
 		}
-		switch {
-		case uint32(xi.ID) != id:
-			res.Kind, res.Detail = "wrong-frame", fmt.Sprintf("response id %d, request id %d", xi.ID, id)
-		case xi.Status != 0:
-			res.Kind, res.Detail = fmt.Sprintf("status:%d", xi.Status), ""
-		case xi.Token != p.Token:
-			res.Kind, res.Detail = "wrong-token", fmt.Sprintf("got %q want %q", xi.Token, p.Token)
-		case !bytes.Equal(xi.Body, p.respBody()):
-			res.Kind, res.Detail = "wrong-body", fmt.Sprintf("got %d bytes want %d", len(xi.Body), p.RespSize)
+		q := pending[uint32(xi.ID)]
+		if q == nil {
+			x.noReuse = true
+			for _, q := range pending {
+				q.res.Kind, q.res.Detail = "wrong-frame", fmt.Sprintf("response with id %d, no such request outstanding", xi.ID)
+			}
+			return
 		}
-		if !res.ok() {
+		delete(pending, uint32(xi.ID))
+		switch {
+		case xi.Status != 0:
+			q.res.Kind, q.res.Detail = fmt.Sprintf("status:%d", xi.Status), ""
+		case xi.Token != q.p.Token:
+			q.res.Kind, q.res.Detail = "wrong-token", fmt.Sprintf("got %q want %q", xi.Token, q.p.Token)
+		case !bytes.Equal(xi.Body, q.p.respBody()):
+			q.res.Kind, q.res.Detail = "wrong-body", fmt.Sprintf("got %d bytes want %d", len(xi.Body), q.p.RespSize)
+		}
+		if !q.res.ok() {
 			x.noReuse = true
 		}
+	}
+}
+
+// doPair keeps two requests outstanding on the multiplexed connection: a slow one (the upstream answers late)
+// and, while it is pending, a second one sent in pieces. During a hot upgrade the hand-over of the connection
+// then finds both a partly received frame and a response still owed by the old server.
+func (x *bconn) doPair(pa, pb *plan, ra, rb *result) {
+	for _, r := range []*result{ra, rb} {
+		r.NewConn, r.ConnAfterSig = !x.used, x.afterSig
+	}
+	x.used = true
+	ida, idb := x.nextID, x.nextID+1
+	x.nextID += 2
+	fa := mesh.XRequest("bolt", ida, pa.Token, pa.reqBody(), 15000)
+	fb := mesh.XRequest("bolt", idb, pb.Token, pb.reqBody(), 15000)
+	before, err := x.r.gated(func() error { return x.c.Send(fa) })
+	ra.BeforeSig, ra.Pieces = before, 1
+	if err != nil {
+		x.noReuse = true
+		ra.Kind, ra.Detail = "send-error", err.Error()
+		rb.Kind, rb.Detail = "send-error", "first request of the pair could not be sent"
 		return
 	}
+	defer x.r.doneOne()
+	n := len(fb)
+	parts := [][]byte{fb[:n/4], fb[n/4 : n/2], fb[n/2 : 3*n/4], fb[3*n/4:]}
+	rb.Pieces = len(parts)
+	pending := map[uint32]*pend{ida: {pa, ra}}
+	for i, part := range parts {
+		var err error
+		if i == 0 {
+			rb.BeforeSig, err = x.r.gated(func() error { return x.c.Send(part) })
+			if err == nil {
+				defer x.r.doneOne()
+			}
+		} else {
+			time.Sleep(x.r.pieceGap)
+			err = x.c.Send(part)
+		}
+		if err != nil {
+			x.noReuse = true
+			rb.Kind, rb.Detail = "send-error", fmt.Sprintf("part %d of %d: %v", i+1, len(parts), err)
+			x.await(pending)
+			return
+		}
+	}
+	pending[idb] = &pend{pb, rb}
+	x.await(pending)
 }
 
 // ---------------------------------------------------------------- HTTP/2 (x/net Transport, prior knowledge, with a frame spy)
@@ -574,6 +643,10 @@ func (x *h2conn) do(p *plan, h *hooks, res *result) {
 			return
 		}
 		res.Kind, res.Detail = classifyErr(out.err), out.err.Error()
+		if strings.Contains(out.err.Error(), "GOAWAY") {
+			// the server's GOAWAY carried a last-stream-id below this request's stream: "not processed, retry elsewhere"
+			res.Kind = "goaway-refused"
+		}
 		return
 	}
 	checkHTTP(p, out.status, out.tok, out.body, res)
